@@ -88,6 +88,8 @@ type AS struct {
 	IfState   *ifstate.Interfaces
 	SignKey   *ecdsa.PrivateKey
 	MaxExp    uint8
+	// router-configuration override of the dispatched port range (nil: none)
+	OvStart, OvEnd *int
 }
 
 type World struct {
@@ -368,6 +370,7 @@ func (w *World) BuildRouters(a *AS) error {
 		cfg := rconfig.RouterConfig{ReceiveBufferSize: k.RcvBuf, SendBufferSize: k.SndBuf, NumProcessors: 1,
 			NumSlowPathProcessors: 1, BatchSize: k.Batch, BFD: rconfig.BFD{Disable: !k.BFD}}
 		cfg.BFD.DetectMult = 3
+		cfg.DispatchedPortStart, cfg.DispatchedPortEnd = a.OvStart, a.OvEnd
 		rt.Conn = router.NewConnector(cfg, env.Features{ExperimentalSCMPAuthentication: w.AuthSCMP})
 		rt.Opener = &simOpener{reuse: k.ReuseLocal}
 		rt.Conn.VerifSetConnOpener("udpip", rt.Opener)
@@ -376,7 +379,11 @@ func (w *World) BuildRouters(a *AS) error {
 			return fmt.Errorf("router %s not in topology", rt.Name)
 		}
 		ccfg := &control.Config{Topo: a.Topo, IA: a.IA, BR: &br, MasterKeys: keyconf.Master{Key0: a.Master}}
-		if err := control.ConfigDataplane(rt.Conn, ccfg); err != nil {
+		if k.DirectConfigOrder {
+			if err := w.directConfig(rt, ccfg); err != nil {
+				return fmt.Errorf("configuring %s (direct calls): %w", rt.Name, err)
+			}
+		} else if err := control.ConfigDataplane(rt.Conn, ccfg); err != nil {
 			return fmt.Errorf("configuring %s: %w", rt.Name, err)
 		}
 		rt.Conn.VerifPrepare()
